@@ -1,6 +1,7 @@
 import PugModel.Sys.Partials
 import PugProofs.Props.C09
 import PugModel.Gen.Tables
+import PugProofs.Props.C08
 /-!
 # C17 — partial rendering returns exactly the requested partials, each as rendered alone
 
@@ -182,5 +183,14 @@ mirrors: the deferred release stands directly behind the acquisition, before eve
 theorem C17_render_skeleton :
     Gen.renderSkeleton_ok = true ∧ Gen.renderSkeleton = Pug.Props.C09.expectedRenderSkeleton :=
   Pug.Props.C09.C09_render_skeleton
+
+/-- **C17 (no state outlives a render or a compilation in package variables).** The inventory of package-level variables of pugjs and
+templatefunctions, regenerated from the Go source on every run, holds nothing but the known entries: no cache, pool, shared empty
+object, memo table or once-guard has been added through which one call, one compilation or one render could reach the next (rounds 5-7
+of the seeded changes added such a variable five times: a shared empty attributes map, a shared empty array, an AST cache, a buffer
+pool). Restated here so that THIS property's check fails on it before any input is drawn. -/
+theorem C17_package_state_inventory :
+    Gen.pkgState_ok = true ∧ Gen.pkgState.all (fun v => Pug.Props.C08.knownPkgState.contains v) = true :=
+  Pug.Props.C08.C08_package_state_inventory
 
 end Pug.Props.C17
